@@ -1152,7 +1152,204 @@ fn run_crash(kv: &HashMap<String, String>) -> i32 {
     0
 }
 
+
+/// Specification -> implementation for the filter pipeline: the environment events of one behaviour of
+/// MC_FilterForkR (TLC -simulate) executed on the real client.  The world has the shape of the model's world (same
+/// block ids 1..10: main chain 1..7, the heavier branch 8..10 on block 5; script 1 has cells in blocks 3, 6, 8, 9,
+/// script 2 one in block 4 that block 9 spends) plus a few blocks on top of either branch: a restarted client can
+/// only prove a peer again that announces a header above the stored tip.
+fn replay_world(rng: &mut StdRng) -> (SimChain, Vec<usize>, Vec<usize>) {
+    use crate::verif::world::{WBlock, WCell, WTx};
+    let p = ChainParams { pow: "dummy".to_owned(), epoch_len: (100, 100), vary_difficulty: false };
+    let scripts = gen::default_scripts();
+    let mut chain = SimChain::new("dummy", &scripts);
+    let cell = |lock: usize, cap: u64| WCell { lock, type_: None, cap, data_len: 0 };
+    let mut add = |chain: &mut SimChain, parent: usize, txs: Vec<WTx>, rng: &mut StdRng| -> usize {
+        let (epoch, diff) = gen::next_epoch(chain, parent, &p, rng);
+        chain.add_block(&WBlock { parent: parent as i64, diff, epoch, pow: true, root: true, txs })
+    };
+    let b2 = add(&mut chain, 0, vec![], rng);
+    let b3 = add(&mut chain, b2, vec![WTx { inputs: vec![], outputs: vec![cell(0, 100)], same_as: None }], rng);
+    let ta = chain.blocks[b3].tx_ids[1];
+    let b4 = add(&mut chain, b3, vec![WTx { inputs: vec![(ta, 0)], outputs: vec![cell(1, 90)], same_as: None }], rng);
+    let tb = chain.blocks[b4].tx_ids[1];
+    let b5 = add(&mut chain, b4, vec![], rng);
+    let b6 = add(&mut chain, b5, vec![WTx { inputs: vec![], outputs: vec![cell(0, 80)], same_as: None }], rng);
+    let b7 = add(&mut chain, b6, vec![], rng);
+    let b8 = add(&mut chain, b5, vec![WTx { inputs: vec![], outputs: vec![cell(0, 70)], same_as: None }], rng);
+    let b9 = add(&mut chain, b8, vec![WTx { inputs: vec![(tb, 0)], outputs: vec![cell(0, 60)], same_as: None }], rng);
+    let b10 = add(&mut chain, b9, vec![], rng);
+    assert_eq!((b7, b8, b10), (6, 7, 9));
+    // spare blocks: old branch 7 -> 11, 12;  new branch 10 -> 13, 14, 15, 16
+    let mut old = vec![b7];
+    let mut cur = b7;
+    for _ in 0..2 {
+        cur = add(&mut chain, cur, vec![], rng);
+        old.push(cur);
+    }
+    let mut newb = vec![b10];
+    cur = b10;
+    for _ in 0..4 {
+        cur = add(&mut chain, cur, vec![], rng);
+        newb.push(cur);
+    }
+    (chain, old, newb)
+}
+
+fn replay_scenario(events: &[serde_json::Value], sc: usize, out: Box<dyn std::io::Write>, skipped: &mut u64) -> (Box<dyn std::io::Write>, u64, Vec<String>) {
+    use ckb_types::prelude::*;
+    let mut rng = StdRng::seed_from_u64(77);
+    let (chain, old, newb) = replay_world(&mut rng);
+    let interval = 100u64;
+    // (last-N 5: the fork stays shallower than last-N also when the old branch has grown by the spare blocks)
+    let cfg = Config { last_n: 5, max_outbound: 1, interval, blocks_in_transit: 8, ..Default::default() };
+    let mut sim: Sim = new_sim(chain, cfg, 1, out, &format!("freplay-{}", sc), vec!["peersync", "filter"]);
+    let mut env = Env::new(&sim, &[(old[0], old[0])]);
+    env.peers[0].server.hashes_batch = 16;
+    env.peers[0].server.filters_batch = 3;
+    sim.reset(json!({"mode": "replay"}));
+    let mut forked = false;
+    let (mut old_k, mut new_k) = (0usize, 0usize);
+    // the peer is proven and its filter hashes are known (as in the model's initial state)
+    let prove = |sim: &mut Sim, env: &mut Env| {
+        if !env.peers[0].connected {
+            env.connect(sim, 0);
+        }
+        env.send_last_state(sim, 0);
+        env.refresh(sim);
+        while env.answer_proof(sim, 0) {}
+        env.refresh(sim);
+        for _ in 0..3 {
+            env.filter_tick(sim, 1, true);
+            let mut any = false;
+            while env.answer_filter(sim, 0, interval) {
+                any = true;
+            }
+            if !any {
+                break;
+            }
+        }
+    };
+    prove(&mut sim, &mut env);
+    for e in events {
+        if !sim.panics.is_empty() || !env.peers[0].connected {
+            break;
+        }
+        let k = e["k"].as_str().unwrap_or("");
+        match k {
+            "SetScripts" => {
+                let list: Vec<(usize, bool, u64)> = e["l"].as_array().map(|a| a.iter().map(|x| {
+                    let key = x[0].as_u64().unwrap_or(2) as usize;
+                    (key / 2 - 1, key % 2 == 1, x[1].as_u64().unwrap_or(0))
+                }).collect()).unwrap_or_default();
+                env.set_scripts(&mut sim, e["x"].as_str().unwrap_or("all"), &list);
+            }
+            "Filters" => {
+                env.peers[0].server.filters_batch = e["n"].as_u64().unwrap_or(1) as usize;
+                env.unsolicited_filters(&mut sim, 0);
+            }
+            "BlocksProof" => {
+                if !env.answer_blocks_proof(&mut sim, 0) {
+                    env.idle_tick(&mut sim);
+                    if !env.answer_blocks_proof(&mut sim, 0) {
+                        *skipped += 1;
+                    }
+                }
+            }
+            "Block" => {
+                let b = e["n"].as_u64().unwrap_or(1) as usize - 1;
+                let h = sim.chain.blocks[b].header.hash();
+                let asked = |sim: &Sim| sim.inbox.iter().any(|s| crate::verif::sim::as_get_blocks(s).map(|g| g.block_hashes().into_iter().any(|x| x == h)).unwrap_or(false));
+                if !asked(&sim) {
+                    env.idle_tick(&mut sim);
+                }
+                if asked(&sim) {
+                    let content = ckb_types::packed::SendBlock::new_builder().block(sim.chain.blocks[b].block.data()).build();
+                    let m = ckb_types::packed::SyncMessage::new_builder().set(content).build();
+                    env.deliver_block(&mut sim, 0, m, "true");
+                } else {
+                    *skipped += 1;
+                }
+            }
+            "Tick" => env.filter_tick(&mut sim, 0, true),
+            "Restart" => {
+                // the peer has one more block when the client comes back
+                let can = if forked { new_k + 1 < newb.len() } else { old_k + 1 < old.len() };
+                if !can {
+                    *skipped += 1;
+                    continue;
+                }
+                env.restart(&mut sim);
+                if forked {
+                    new_k += 1;
+                    env.peers[0].server.tip = newb[new_k];
+                } else {
+                    old_k += 1;
+                    env.peers[0].server.tip = old[old_k];
+                }
+                env.peers[0].leaf = env.peers[0].server.tip;
+                prove(&mut sim, &mut env);
+            }
+            "Fork" => {
+                if forked {
+                    *skipped += 1;
+                    continue;
+                }
+                forked = true;
+                // the first block of the new branch that is higher than what the peer has announced so far
+                let cur_num = sim.chain.blocks[old[old_k]].num;
+                new_k = newb.iter().position(|b| sim.chain.blocks[*b].num > cur_num).unwrap_or(newb.len() - 1);
+                env.peers[0].server.tip = newb[new_k];
+                env.peers[0].leaf = newb[new_k];
+                sim.inbox.clear();
+                prove(&mut sim, &mut env);
+            }
+            _ => *skipped += 1,
+        }
+        env.enforce_bans(&mut sim);
+    }
+    let lines = sim.lines;
+    let panics = sim.panics.clone();
+    let out = std::mem::replace(&mut sim.out, Box::new(std::io::sink()));
+    (out, lines, panics)
+}
+
+fn run_replay(kv: &HashMap<String, String>) -> i32 {
+    let path = arg_str(kv, "out", "/dev/stdout");
+    let file = arg_str(kv, "file", "");
+    let n = arg_u64(kv, "n", 100) as usize;
+    let seed = arg_u64(kv, "seed", 1) as usize;
+    let text = std::fs::read_to_string(&file).expect("read scenario file");
+    let lines: Vec<&str> = text.lines().filter(|l| l.starts_with('[')).collect();
+    let mut out: Box<dyn std::io::Write> = Box::new(BufWriter::new(File::create(&path).expect("open out")));
+    if arg_u64(kv, "wlog", 0) == 1 {
+        crate::verif::sim::wlog_enable(&format!("{}.w", path));
+    }
+    let (mut total, mut skipped, mut done) = (0u64, 0u64, 0usize);
+    let mut panics = Vec::new();
+    let m = lines.len().max(1);
+    for k in 0..n.min(lines.len()) {
+        let idx = (seed * 7919 + k * (m / n.max(1)).max(1)) % m;
+        let events: Vec<serde_json::Value> = match serde_json::from_str(lines[idx]) {
+            Ok(v) => v,
+            Err(_) => continue,
+        };
+        let (o, l, p) = replay_scenario(&events, idx, out, &mut skipped);
+        out = o;
+        total += l;
+        done += 1;
+        panics.extend(p);
+    }
+    out.flush().ok();
+    crate::verif::sim::wlog_finish();
+    eprintln!("filtersync mode=replay scenarios={} lines={} skipped_events={} panics={}", done, total, skipped, panics.len());
+    0
+}
+
 pub fn run(kv: &HashMap<String, String>) -> i32 {
+    if arg_str(kv, "mode", "sync") == "replay" {
+        return run_replay(kv);
+    }
     if arg_str(kv, "mode", "sync") == "crash" {
         return run_crash(kv);
     }
